@@ -222,7 +222,7 @@ func init() {
 		ID:    "C13",
 		Level: "exploration",
 		Rule: "cases are valid templates with one single-line faulty construct injected on a line known by construction: every fault kind (undefined identifier, mistyped operand, unknown function/property, division/modulo by zero, non-array @each, re-typing, illegal character, unexpected token, out-of-range literal, undefined insert, unknown component) x every kind of multi-line token as the last token before the fault (multi-line and CRLF text, strings with newlines, multi-line comments, {{ }} blocks and directive/call argument lists broken over lines, whole blocks, escapes, UTF-8) x 0..2 further prelude tokens x 5 block wrappers x text or nothing before the fault on its line; single strings through EvaluateString and template trees (fault in the page, in an insert block, in a layout or in a component) through NewTemplate / Template.String; " +
-			"the reported line (and, for trees, the absolute path) is read from the error and compared with the constructed one. also faults whose token is a multi-line string, operator chains over several lines, stray carriage returns, '%' in directory and page names, other pages rendered first; round 8: missing commas in multi-line directive arguments, illegal characters behind directive keywords, lines to 200003; round 9: faults inside brackets and arguments on later lines; concurrent replay; rounds 10-11: header clauses, faults in insert and component arguments; rounds 12-13: unclosed headers, strings starting or ending with a line end, sibling names around the extension dot; round 14: faults under postfix operators on later lines; round 15: overlapping renders of one template; distinct_nontrivial = distinct sources",
+			"the reported line (and, for trees, the absolute path) is read from the error and compared with the constructed one. also faults whose token is a multi-line string, operator chains over several lines, stray carriage returns, '%' in directory and page names, other pages rendered first; round 8: missing commas in multi-line directive arguments, illegal characters behind directive keywords, lines to 200003; round 9: faults inside brackets and arguments on later lines; concurrent replay; rounds 10-11: header clauses, faults in insert and component arguments; rounds 12-13: unclosed headers, strings starting or ending with a line end, sibling names around the extension dot; round 14: faults under postfix operators on later lines; round 15: overlapping renders of one template; round 16: files opening with blank lines and byte order marks; distinct_nontrivial = distinct sources",
 		Assumptions: []string{
 			"the faulty construct sits on one line, so 'the line on which its token ends' is unambiguous",
 			"paths are checked for load-time faults and for faults in the page itself, as the statement restricts them",
